@@ -147,7 +147,9 @@ fn run_families(opts: &Opts) -> Report {
             Outcome::Abort(m) => rep.violation(Violation { class: "execute_aborted".into(), detail: m, tags: vec![], case: describe(k) }),
         }
     }
-    if done.len() != n {
+    if let Some(t) = isolate::truncated() {
+        rep.cap_hit = Some(t);
+    } else if done.len() != n {
         rep.notes.push(format!("MACHINERY: {} of {} cases produced no result", n - done.len(), n));
     }
     rep.count("nontrivial", nt.len() as u64);
